@@ -371,8 +371,8 @@ func genTestonlyRich(r *rng.R) *rawWS {
 		w.Targets = append(w.Targets, t)
 		l := lbl("p", t.Name)
 		restricted = append(restricted, l)
-		// alias chains of length 1-2 to it
-		for k := 0; k < r.Intn(3); k++ {
+		// alias chains of length 1-3 to it
+		for k := 0; k < r.Intn(4); k++ {
 			a := rawAlias{Pkg: rng.Pick(r, []string{"p", ""}), Name: fmt.Sprintf("%c_al%d_%d", 'a'+rune(r.Intn(26)), i, k), Actual: l, File: "BUILD.json"}
 			w.Aliases = append(w.Aliases, a)
 			l = lbl(a.Pkg, a.Name)
@@ -380,6 +380,7 @@ func genTestonlyRich(r *rng.R) *rawWS {
 		}
 	}
 	users := r.Range(2, 5)
+	sparse := r.Chance(1, 2)
 	for i := 0; i < users; i++ {
 		// names spread over the alphabet so that offenders sort before and after legitimate users
 		t := rawTarget{Pkg: rng.Pick(r, []string{"p", "", "p/sub"}), Name: fmt.Sprintf("%c%d", 'a'+rune(r.Intn(26)), i), File: "BUILD.json"}
@@ -389,13 +390,19 @@ func genTestonlyRich(r *rng.R) *rawWS {
 		case 1:
 			t.Tags = []string{"testonly"}
 		}
-		for _, l := range restricted {
-			if r.Chance(1, 2) {
-				t.Deps = append(t.Deps, l)
-			}
-		}
-		if len(t.Deps) == 0 {
+		if sparse {
+			// exactly one route to a restricted target per user: an offender is then only
+			// visible through that one label (a particular link of an alias chain)
 			t.Deps = []string{rng.Pick(r, restricted)}
+		} else {
+			for _, l := range restricted {
+				if r.Chance(1, 2) {
+					t.Deps = append(t.Deps, l)
+				}
+			}
+			if len(t.Deps) == 0 {
+				t.Deps = []string{rng.Pick(r, restricted)}
+			}
 		}
 		w.Targets = append(w.Targets, t)
 	}
